@@ -27,6 +27,8 @@ func SendServiceUsageRequest(
 	if err != nil {
 		return nil, err
 	}
+	// one connection per exchange: release it (and its watchdog) when the exchange is over
+	defer conn.Close()
 
 	meta, ok := smpeer.FromContext(conn.Context())
 	if !ok {
